@@ -40,6 +40,23 @@ HEADER = ("From Coq Require Import List ZArith Arith. Import ListNotations.\n"
           "Require Import NV.C21.Model NV.C21.ModelVI.\n")
 
 
+PID = os.getpid()
+
+
+def scratch(name):
+    """per-process scratch name (several checks of the same property may run at the same time)"""
+    return "%s_p%d" % (name, PID)
+
+
+def cleanup_scratch(prop):
+    import glob
+    for f in glob.glob(os.path.join(C.run_dir(prop), "*_p%d*" % PID)) + glob.glob(os.path.join(C.run_dir(prop), ".*_p%d*" % PID)):
+        try:
+            os.remove(f)
+        except OSError:
+            pass
+
+
 class UserError(Exception):
     pass
 
@@ -77,6 +94,10 @@ def pc(p):
         return "GetState"
     if t == "setstate":
         return "SetState"
+    if t == "newctx":
+        return "(NewCtx %s)" % ("(ISeed %s)" % C.cz(p[1][1]) if p[1][0] == "seed" else "(IVar %d)" % p[1][1])
+    if t == "enter":
+        return "(Enter %d %s)" % (p[1], pc(p[2]))
     raise ValueError(t)
 
 
@@ -92,7 +113,7 @@ def seq_of(stmts):
 def size(p):
     if p[0] == "seq":
         return size(p[1]) + size(p[2])
-    if p[0] == "ctx":
+    if p[0] in ("ctx", "enter"):
         return 1 + size(p[2])
     if p[0] == "try":
         return 1 + size(p[1])
@@ -116,6 +137,7 @@ def api_draw(R, k, n):
 class Env:
     def __init__(self):
         self.pool = []       # newest first
+        self.cpool = []      # Context objects, newest first
         self.saved = None
         self.draws = []
 
@@ -164,6 +186,15 @@ def run_prog(R, p, env):
     elif t == "setstate":
         if env.saved is not None:
             R.setState(env.saved)
+    elif t == "newctx":
+        if p[1][0] == "seed":
+            env.cpool.insert(0, R.Context(p[1][1]))
+        elif p[1][1] < len(env.pool):
+            env.cpool.insert(0, R.Context(env.pool[p[1][1]]))
+    elif t == "enter":
+        if p[1] < len(env.cpool):
+            with env.cpool[p[1]]:
+                run_prog(R, p[2], env)
     else:
         raise ValueError(t)
 
@@ -329,7 +360,8 @@ def same_array(a, b):
 # ---- generation ----------------------------------------------------------------------------------
 
 def gen_stmt(rng, depth, flavour):
-    """flavour: 'pure' (draw/spawn/raise/try/ctx-on-seed), 'scoped' (+ variables), 'wild' (everything)"""
+    """flavour: 'pure' (draw/spawn/raise/try/ctx-on-seed), 'scoped' (+ variables), 'wild' (everything),
+    'objects' (Context objects that are created once and entered several times, nested, after exceptions)"""
     r = rng.random()
     small = lambda a, b: int(rng.integers(a, b))
     if flavour == "pure":
@@ -337,10 +369,13 @@ def gen_stmt(rng, depth, flavour):
     elif flavour == "scoped":
         table = [(0.35, "draw"), (0.12, "spawn"), (0.06, "spawnfrom"), (0.12, "ctxseed"), (0.17, "ctxvar"),
                  (0.07, "raise"), (0.11, "try")]
+    elif flavour == "objects":
+        table = [(0.34, "draw"), (0.05, "spawn"), (0.10, "newctx"), (0.27, "enter"), (0.08, "ctxseed"),
+                 (0.07, "raise"), (0.09, "try")]
     else:
-        table = [(0.26, "draw"), (0.09, "spawn"), (0.05, "spawnfrom"), (0.06, "push"), (0.06, "pushseed"),
-                 (0.09, "pop"), (0.09, "ctxseed"), (0.10, "ctxvar"), (0.05, "raise"), (0.08, "try"),
-                 (0.03, "getstate"), (0.04, "setstate")]
+        table = [(0.23, "draw"), (0.08, "spawn"), (0.05, "spawnfrom"), (0.06, "push"), (0.06, "pushseed"),
+                 (0.08, "pop"), (0.08, "ctxseed"), (0.08, "ctxvar"), (0.05, "raise"), (0.08, "try"),
+                 (0.03, "getstate"), (0.04, "setstate"), (0.03, "newctx"), (0.05, "enter")]
     acc = 0.0
     what = table[-1][1]
     for w, name in table:
@@ -348,7 +383,7 @@ def gen_stmt(rng, depth, flavour):
         if r < acc:
             what = name
             break
-    if depth <= 0 and what in ("ctxseed", "ctxvar", "try"):
+    if depth <= 0 and what in ("ctxseed", "ctxvar", "try", "enter"):
         what = "draw"
     if what == "draw":
         return ["draw", small(0, 6), small(0, 4) if rng.random() < 0.1 else small(1, 4)]
@@ -368,11 +403,15 @@ def gen_stmt(rng, depth, flavour):
         return ["getstate"]
     if what == "setstate":
         return ["setstate"]
+    if what == "newctx":
+        return ["newctx", ["seed", small(0, 6)] if rng.random() < 0.75 else ["var", small(0, 3)]]
     body = seq_of([gen_stmt(rng, depth - 1, flavour) for _ in range(small(1, 4))])
     if what == "try":
         return ["try", body]
     if what == "ctxseed":
         return ["ctx", ["seed", small(0, 6)], body]
+    if what == "enter":
+        return ["enter", small(0, 2), body]
     return ["ctx", ["var", small(0, 4)], body]
 
 
@@ -380,6 +419,9 @@ def gen_case(rng, flavour):
     n = int(rng.integers(2, 8))
     items = []
     total = 0
+    if flavour == "objects":          # make sure objects exist before they are entered
+        items = [["newctx", ["seed", int(rng.integers(0, 6))]] for _ in range(int(rng.integers(1, 3)))]
+        total = len(items)
     for _ in range(n):
         p = seq_of([gen_stmt(rng, 4, flavour) for _ in range(int(rng.integers(1, 4)))])
         if total + size(p) > 40:
@@ -679,6 +721,59 @@ def oracle_local(inp_seed, body):
     return None
 
 
+def oracle_reentry(seed, spawned, body1, body2, mode):
+    """One Context object entered twice: the second entry must draw what a fresh inline context
+    on the same seed draws.  mode: 0 plain, 1 first entry left by an exception, 2 second entry nested
+    in another context, 3 an unrelated context (and draws from the outer generator) in between."""
+    import nifty.cl as ift
+    R = ift.random
+
+    def mk():
+        if spawned:
+            return np.random.SeedSequence(seed, spawn_key=(3, 1))
+        return seed
+    with Sandbox(R, 42):
+        ref = Env()
+        try:
+            with R.Context(mk()):
+                run_prog(R, body2, ref)
+        except UserError:
+            ref.draws.append(np.array([1]))
+        depth = len(R._sseq)
+        ctx = R.Context(mk())
+        e1 = Env()
+        try:
+            with ctx:
+                run_prog(R, body1, e1)
+                if mode == 1:
+                    raise UserError()
+        except UserError:
+            pass
+        if len(R._sseq) != depth:
+            return "stack depth changed by the first entry"
+        if mode == 3:
+            api_draw(R, 0, 2)
+            with R.Context(99):
+                api_draw(R, 1, 3)
+        e2 = Env()
+        try:
+            if mode == 2:
+                with R.Context(5):
+                    api_draw(R, 0, 1)
+                    with ctx:
+                        run_prog(R, body2, e2)
+            else:
+                with ctx:
+                    run_prog(R, body2, e2)
+        except UserError:
+            e2.draws.append(np.array([1]))
+        if len(R._sseq) != depth or len(R._rng) != depth:
+            return "stack depth changed by the second entry"
+        if len(e2.draws) != len(ref.draws) or any(not same_array(x, y) for x, y in zip(e2.draws, ref.draws)):
+            return "second entry of a Context object does not draw what its seed alone determines (depends on the first entry)"
+    return None
+
+
 def bracket(rng):
     """exception-safe hand-written push ... pop"""
     inner = seq_of([gen_stmt(rng, 2, "scoped") for _ in range(int(rng.integers(1, 3)))])
@@ -692,7 +787,8 @@ class C21(C.Check):
     coq_dir = "C21"
     trusted_base = [
         "Coq 8.16.1 kernel (coqc, vm_compute for the correspondence evaluation); no axioms: all C21 theorems are closed under the global context",
-        "hand-written models coq/C21/Model.v (nifty/cl/random.py) and coq/C21/ModelVI.v (key handling of OptimizeVI.update / draw_samples), tied by correspondence, not by translation",
+        "hand-written models coq/C21/Model.v (nifty/cl/random.py) and coq/C21/ModelVI.v (key handling of OptimizeVI.update / draw_samples), tied by correspondence; push_sseq/push_sseq_from_seed/pop_sseq/spawn_sseq/Context.__init__/__enter__/__exit__ additionally by the fail-closed translator tr/c21_random.py (statement whitelist of coq/C21/Stmt.v) + theorem C21_source_tie",
+        "coq/C21/Stmt.v: the meaning given to the whitelisted statements and to Python's with-protocol",
         "numpy: a Generator is determined by (entropy, spawn_key) of its SeedSequence and the sequence of draws made on it (checked on every run by replay on fresh generators, bit for bit); SeedSequence.spawn appends the running child counter to spawn_key (observed on every run)",
         "the test-program interpreter in harness/props/c21.py (Python `with`/`try` semantics are Python's own; missing variables are skipped, as in the model)",
         "jax.random.split treated as an uninterpreted function; real keys are mapped back to split-terms by enumerating the terms reachable within the run",
@@ -708,6 +804,12 @@ class C21(C.Check):
         self.procs = None
         self.cases = []
         self.vi_cases = []
+
+    def translate(self, ctx):
+        from tr import c21_random
+        text, sha = c21_random.translate(ctx.repo)
+        C.write_if_changed(os.path.join(C.COQ, "C21", "Gen_Random.v"), text)
+        self.gen_sha = sha
 
     # ---- correspondence ----
     def check_cases(self, cases, name):
@@ -766,16 +868,16 @@ class C21(C.Check):
         return C.eval_cases(self.prop, name, HEADER, checks), plain
 
     def correspondence(self, ctx, res):
-        self.procs = start_runs(ctx, runs_spec(ctx), "main")      # runs while coqc works
+        self.procs = start_runs(ctx, runs_spec(ctx), scratch("main"))      # runs while coqc works
         t0 = time.time()
         rng = ctx.rng(21)
         corpus = ctx.corpus()
         cases = [c["case"] for c in corpus if c.get("kind") == "program"]
         n = 160 if ctx.quick else 1600
         for i in range(n):
-            cases.append(gen_case(rng, ["wild", "wild", "scoped", "pure"][i % 4]))
+            cases.append(gen_case(rng, ["wild", "objects", "scoped", "pure", "wild", "objects"][i % 6]))
         self.cases = cases
-        bad, obs_all = self.check_cases(cases, "corr")
+        bad, obs_all = self.check_cases(cases, scratch("corr"))
         for i, why in bad[:4]:
             res.add_broken("correspondence", "nifty/cl/random.py vs coq/C21/Model.v",
                            {"case_kind": "program", "why": why, "case": cases[i],
@@ -786,7 +888,7 @@ class C21(C.Check):
         for i in range(6 if ctx.quick else 60):
             vcases.append(gen_vi_case(rngv))
         self.vi_cases = vcases
-        vbad, plain = self.check_vi(vcases, "vi")
+        vbad, plain = self.check_vi(vcases, scratch("vi"))
         for i in vbad[:3]:
             res.add_broken("correspondence", "OptimizeVI.update key schedule vs coq/C21/ModelVI.v",
                            {"case_kind": "vi", "case": vcases[i], "observed": plain[i]})
@@ -795,7 +897,7 @@ class C21(C.Check):
 
         def nontrivial(c):
             s = json.dumps(c["items"])
-            return '"ctx"' in s and '"draw"' in s
+            return ('"ctx"' in s or '"enter"' in s) and '"draw"' in s
         distinct = len({json.dumps(c, sort_keys=True) for c in cases if nontrivial(c)})
         distinct_vi = len({json.dumps(c, sort_keys=True) for c in vcases})
         nstm = sum(len(c["items"]) for c in cases)
@@ -849,6 +951,15 @@ class C21(C.Check):
                 count += 1
                 if f:
                     res.add_failing({"part": "context_local"}, f, inp)
+                # no spawns here: spawning legitimately advances the counter of the re-used seed sequence
+                nospawn = lambda: seq_of([x for x in (gen_stmt(rng, 2, "pure") for _ in range(int(rng.integers(1, 4))))
+                                          if '"spawn"' not in json.dumps(x)] or [["draw", 1, 2]])
+                inp = {"test": "reentry", "seed": seed, "spawned": bool(i % 2), "body1": nospawn(),
+                       "body2": nospawn(), "mode": (i // 3) % 4}
+                f = self.run_oracle_input(inp)
+                count += 1
+                if f:
+                    res.add_failing({"part": "context_reentry"}, f, inp)
             if len(res.failing) >= 3:
                 break
         return count
@@ -866,6 +977,8 @@ class C21(C.Check):
             return oracle_restore(inp["entropy"], inp["variant"], inp["seed"], inp["body"])
         if inp["test"] == "local":
             return oracle_local(inp["seed"], inp["body"])
+        if inp["test"] == "reentry":
+            return oracle_reentry(inp["seed"], inp["spawned"], inp["body1"], inp["body2"], inp["mode"])
         if inp["test"] == "vi_strategy":
             return self.oracle_vi_one(inp)
         raise ValueError(inp["test"])
@@ -909,7 +1022,7 @@ class C21(C.Check):
         t2 = time.time()
         # differential runs (observed)
         if self.procs is None:
-            self.procs = start_runs(ctx, runs_spec(ctx), "main")
+            self.procs = start_runs(ctx, runs_spec(ctx), scratch("main"))
         outs = finish_runs(self.procs, 280 if ctx.quick else 1100)
         self.procs = None
         res.notes.append("timing: oracle rng %.1fs, oracle vi keys %.1fs, waiting for differential runs %.1fs"
@@ -922,6 +1035,7 @@ class C21(C.Check):
             res.add_failing(sig, what, inp)
         res.coverage["impl_property_evaluations"] = n + nv + sum(
             len(v) if k.startswith("jax:") else 1 for k, v in outs[0].items())
+        cleanup_scratch(self.prop)
         res.coverage["differential_runs"] = {"runs": sorted(outs[0]), "jax_configs": sorted(
             {c for k, v in outs[0].items() if k.startswith("jax:") for c in v}),
             "label": "observed, not proved", "tolerance": 1e-10}
@@ -935,15 +1049,15 @@ class C21(C.Check):
                 if b.get("kind") != "correspondence":
                     return True            # a proof / translator breakage: rerun the whole check
                 if d.get("case_kind") == "program":
-                    bad, _ = self.check_cases([d["case"]], "replay")
+                    bad, _ = self.check_cases([d["case"]], scratch("replay"))
                     still = still or bool(bad)
                 elif d.get("case_kind") == "vi":
-                    bad, _ = self.check_vi([d["case"]], "replay")
+                    bad, _ = self.check_vi([d["case"]], scratch("replay"))
                     still = still or bool(bad)
             return still
         inp = rp["input"]
         if inp["test"] == "runs":
-            outs = finish_runs(start_runs(ctx, inp["spec"], "replay"), 1100)
+            outs = finish_runs(start_runs(ctx, inp["spec"], scratch("replay")), 1100)
             return bool(compare_runs(outs))
         return self.run_oracle_input(inp) is not None
 
